@@ -35,7 +35,9 @@ Docs == <<
   \* a repeated name in a paragraph built from pairs
   [items |-> <<F(1,0,1), F(1,0,3), C(0,1)>>, term |-> TRUE, origins |-> {"built", "para_built"}],
   \* three blank lines and a run of three comments between two paragraphs
-  [items |-> <<F(1,0,1), BL, BL, BL, H(1), H(2), H(3), F(2,0,1)>>, term |-> TRUE, origins |-> {"parsed"}]
+  [items |-> <<F(1,0,1), BL, BL, BL, H(1), H(2), H(3), F(2,0,1)>>, term |-> TRUE, origins |-> {"parsed"}],
+  \* a BIG document (four paragraphs, up to four fields): one step from it, at every paragraph and index
+  [items |-> <<F(1,0,1), F(2,0,2), F(3,0,1), BL, F(1,0,3), H(1), F(2,0,1), BL, F(2,0,2), BL, F(1,0,1), F(3,0,2), F(2,0,3), C(0,3), F(1,0,2)>>, term |-> TRUE, origins |-> {"parsed"}]
 >>
 
 KeysSet == {1, 2}
@@ -71,11 +73,13 @@ Next ==
   \* reformat the document (no sort order, no paragraph rebuilder) and go on editing the result
   \/ ~Solo /\ Do(Op("wrap", 0, 0, 0, <<>>, 0), WrapI(st))
 
+BigBase == Len(Docs)
 Bound ==
-  /\ NP <= MaxP
-  /\ (Len(TextLines(st.els)) <= MaxL \/ Len(hist) <= DBig)
-  /\ \A p \in 1..NP : Len(ApiOf(st.els)[p]) <= MaxF
-  /\ Len(hist) <= 8
+  IF base = BigBase THEN Len(hist) <= 1
+  ELSE /\ NP <= MaxP
+       /\ (Len(TextLines(st.els)) <= MaxL \/ Len(hist) <= DBig)
+       /\ \A p \in 1..NP : Len(ApiOf(st.els)[p]) <= MaxF
+       /\ Len(hist) <= 8
 
 \* ---- what TLC proves (A): every I-layer step is allowed by the property relation
 StepsOK == [][StepOK(Obs(st.els, st.term), lastop', Obs(st'.els, st'.term))]_vars
